@@ -46,7 +46,7 @@ PROPS = {
     'bridge_env/data_handler/json_handler/parser.py': ['C12', 'C17'],
     'bridge_env/data_handler/pbn_handler/writer.py': ['C18', 'C17'],
     'bridge_env/data_handler/pbn_handler/parser.py': ['C18', 'C17'],
-    'bridge_env/network_bridge/socket_interface.py': ['C19', 'C09'],
+    'bridge_env/network_bridge/socket_interface.py': ['C19', 'C09', 'C11', 'C20'],
     'bridge_env/network_bridge/server.py': ['C08', 'C09', 'C10', 'C13', 'C20', 'C19'],
     'bridge_env/network_bridge/client.py': ['C11', 'C19'],
     'bridge_env/network_bridge/bidding_system.py': ['C11'],
@@ -61,11 +61,22 @@ BIN = {ast.Add: ('+', '-'), ast.Sub: ('-', '+'), ast.Mult: ('*', '//'), ast.Floo
 
 
 def sh(cmd, cwd=None, env=None, timeout=1800):
+    # own process group: a timed-out check is killed WITH its pool workers (they hold the output pipe otherwise)
+    import signal
+    p = subprocess.Popen(cmd, cwd=cwd, env=env, stdout=subprocess.PIPE, stderr=subprocess.STDOUT, text=True, start_new_session=True)
     try:
-        p = subprocess.run(cmd, cwd=cwd, env=env, stdout=subprocess.PIPE, stderr=subprocess.STDOUT, text=True, timeout=timeout)
-        return p.returncode, p.stdout
-    except subprocess.TimeoutExpired as e:
-        return 124, (e.stdout or '') if isinstance(e.stdout, str) else 'timeout'
+        out, _ = p.communicate(timeout=timeout)
+        return p.returncode, out
+    except subprocess.TimeoutExpired:
+        try:
+            os.killpg(p.pid, signal.SIGKILL)
+        except ProcessLookupError:
+            pass
+        try:
+            out, _ = p.communicate(timeout=30)
+        except Exception:
+            out = ''
+        return 124, (out or '') + '\ntimeout'
 
 
 class Src:
@@ -237,7 +248,7 @@ def worker(args):
                 os.makedirs(rp, exist_ok=True)
                 e = dict(os.environ, BRIDGE_ENV_REPO=wt, VERIF_NO_BUILD='1', VERIF_EVIDENCE_DIR=ev, VERIF_REPLAY_DIR=rp,
                          VERIF_SEED='0')
-                rc, out = sh([os.path.join(VERIF, 'check'), prop, '--tier', 'quick'], cwd=VERIF, env=e, timeout=1200)
+                rc, out = sh([os.path.join(VERIF, 'check'), prop, '--tier', 'quick'], cwd=VERIF, env=e, timeout=600)
                 reason = ''
                 if rc == 1:
                     for fn in sorted(os.listdir(rp))[:1]:
